@@ -28,6 +28,10 @@ func main() {
 		os.Exit(cmdExplain(os.Args[2:]))
 	case "guards":
 		os.Exit(cmdGuards(os.Args[2:]))
+	case "manifest":
+		os.Exit(cmdManifest(os.Args[2:]))
+	case "trace":
+		os.Exit(cmdTrace(os.Args[2:]))
 	case "mutants":
 		os.Exit(cmdMutants(os.Args[2:]))
 	case "list":
@@ -204,4 +208,127 @@ func cmdMutants(args []string) int {
 		}
 	}
 	return rc
+}
+
+// cmdTrace prints the codec trace of functions for a value type:
+// lndlint trace <patterns> <pkg.Type> <funcID>...
+func cmdTrace(args []string) int {
+	fs := flag.NewFlagSet("trace", flag.ExitOnError)
+	repo := fs.String("repo", "/repo", "repository root")
+	dir := fs.String("dir", "", "module sub-directory")
+	fs.Parse(args)
+	if fs.NArg() < 3 {
+		usage()
+	}
+	d := *repo
+	if *dir != "" {
+		d += "/" + *dir
+	}
+	res, err := load.Load(load.Config{Dir: d, Patterns: strings.Split(fs.Arg(0), ",")})
+	if err != nil {
+		fmt.Fprintln(os.Stderr, err)
+		return 2
+	}
+	prog := an.NewProg(res)
+	tp := strings.SplitN(fs.Arg(1), ".", 2)
+	T := prog.LookupType(tp[0], tp[1])
+	for _, id := range fs.Args()[2:] {
+		f := prog.FuncOpt(id)
+		if f == nil {
+			fmt.Println("no function", id)
+			continue
+		}
+		ev, ment := f.Trace(T, an.CodecOpts{})
+		fmt.Printf("== %s\n", id)
+		for _, e := range ev {
+			fmt.Printf("   %-28s %-40s %s\n", e.Field, e.Type, e.Prim)
+		}
+		var ms []string
+		for m := range ment {
+			ms = append(ms, m)
+		}
+		sort.Strings(ms)
+		fmt.Printf("   mentioned: %v\n", ms)
+	}
+	return 0
+}
+
+// cmdManifest writes MANIFEST.json from the spec registry.
+func cmdManifest(args []string) int {
+	fs := flag.NewFlagSet("manifest", flag.ExitOnError)
+	verif := fs.String("verif", "/verif", "verif root")
+	fs.Parse(args)
+	var all []string
+	f, err := os.Open(*verif + "/properties.jsonl")
+	if err != nil {
+		fmt.Fprintln(os.Stderr, err)
+		return 2
+	}
+	dec := json.NewDecoder(f)
+	for dec.More() {
+		var p struct {
+			ID string `json:"id"`
+		}
+		if err := dec.Decode(&p); err != nil {
+			fmt.Fprintln(os.Stderr, err)
+			return 2
+		}
+		all = append(all, p.ID)
+	}
+	var checks []map[string]any
+	var na []map[string]any
+	for _, id := range all {
+		s := spec.Get(id)
+		if s == nil {
+			na = append(na, map[string]any{"property_id": id, "reason": "no static check registered yet: the rule instances for this property are still being written (see DESIGN.md section 6 for what will be claimed)"})
+			continue
+		}
+		tech := s.Technique
+		if tech == "" {
+			tech = "static analysis of the type-checked source: " + s.Engines
+		}
+		checks = append(checks, map[string]any{
+			"property_id":         id,
+			"quick_cmd":           "./check " + id + " quick",
+			"thorough_cmd":        "./check " + id + " thorough",
+			"evidence_file":       "/verif/evidence/" + id + ".json",
+			"replay_cmd_template": "./bin/lndlint explain {path}",
+			"engine":              "lndlint",
+			"technique":           tech,
+			"level_claimed": map[string]any{
+				"category":   "other",
+				"text":       "Structural necessary conditions only, decided statically on every path of the analysed functions: " + s.Explanation + " Not a proof of the behavioural property; a violated obligation breaks the property, discharged obligations do not establish it.",
+				"design_ref": "DESIGN.md section 6, " + id,
+			},
+			"level_note": "Not decided: " + strings.Join(s.NotDecided, "; ") + ". Trusted: go/types, go/packages (x/tools v0.29.0), the lndlint flow-graph builder and the spec tables in tools/lndlint/internal/spec. Tests, mocks and test helpers are outside the rules.",
+		})
+	}
+	m := map[string]any{
+		"version":   1,
+		"setup_cmd": "./setup.sh",
+		"hooks": map[string]any{
+			"guard":            "verif",
+			"enable":           "no hooks: the checks analyse /repo's source as it is (no instrumentation, nothing built with a tag)",
+			"baseline_off_cmd": "cd /repo && export GOFLAGS=-mod=mod GOPROXY=off && for m in . actor cert clock fn healthcheck kvdb queue sqldb ticker tlv tools tor; do (cd $m && go test -vet=off -count=1 -timeout 25m ./...); done",
+			"source_commits":   []string{},
+			"add_only":         true,
+		},
+		"engines": []map[string]any{{
+			"name": "lndlint", "path": "tools/lndlint", "serves_properties": spec.IDs(),
+			"kind_free_text": "custom static analyser (go/packages + go/types, own statement-level flow graph with short-circuit splitting): must-pass-through / dominance / edge-cut path rules, guard atoms with origin terms, codec trace agreement, decision-table extraction over finite domains, who-may-reference, lock and field typestate rules, registries",
+		}},
+		"checks":         checks,
+		"notes":          "All checks are static: they load and type-check /repo's current working tree on every run and never execute lnd code. thorough = quick + witness mutants (in-memory overlay edits that must be reported) + extra build configurations. See DESIGN.md.",
+		"not_applicable": na,
+	}
+	if na == nil {
+		m["not_applicable"] = []any{}
+	}
+	b, _ := json.MarshalIndent(m, "", " ")
+	if err := os.WriteFile(*verif+"/MANIFEST.json", append(b, '\n'), 0o644); err != nil {
+		fmt.Fprintln(os.Stderr, err)
+		return 2
+	}
+	fmt.Printf("MANIFEST.json: %d checks, %d not applicable\n", len(checks), len(na))
+	return 0
 }
